@@ -324,6 +324,71 @@ def r6(ctx, prog, eng, ctxs):
            (len(waits), {(k or '?').split('::')[-1]: sorted(v) for k, v in notifiers.items()}) if not bad else 'wait-for cycle: ' + '; '.join(bad[:2]))
 
 
+def r7(ctx, prog, eng):
+    ctx.rule('C10.R7', 'A10 (linear forms per reaching definition): the chunk copy inside a pipe buffer stays inside the block and the source, copies as much as '
+             'fits (min(request, free)), advances size_ by exactly what was copied and returns it; appendLockless advances its cursor by what the chunk accepted', floor=6)
+    from tbxlint import lin
+    from tbxlint.affine import Aff, Ptr, nonneg
+    BUF = IMPL + '::Buffer'
+    f = prog.fn1(BUF + '::append')
+    CH = [('this.size_', 'this.capacity_')]        # class invariant size_ <= capacity_ (re-established below)
+    mc = [st for st in f.stmts if st and st['k'] == 'CallExpr' and st.get('callee') in ('memcpy', 'memmove')]
+    if len(mc) != 1:
+        raise AnalysisBroken('Buffer::append: expected one memcpy, found %d' % len(mc))
+    m = mc[0]
+    mp = q.pt(f, m)
+    dsz = Aff.sym(f.params[1]['n'])
+    size0, cap = Aff.sym('this.size_'), Aff.sym('this.capacity_')
+    dst = lin.lin(f, m['args'][0], mp)
+    src = lin.lin(f, m['args'][1], mp)
+    okd = isinstance(dst, Ptr) and dst == Ptr('this.data_', size0) and q.stable(f, 'size_', None, mp, content=True)
+    ctx.ob('C10.R7', '%s|dst-is-tail' % f.name, okd, 'destination is data_ + size_ (the first free byte), size_ unchanged since entry' if okd else
+           'destination %s is not data_ + size_: earlier bytes are overwritten or a gap is left' % (dst,), where=f.loc(m['i']))
+    oks = isinstance(src, Ptr) and src == Ptr('param:' + f.params[0]['n'], Aff(0))
+    ctx.ob('C10.R7', '%s|src-is-datum' % f.name, oks, 'source is the caller\'s pointer', where=f.loc(m['i']))
+    classes = lin.value_classes(f, m['args'][2], mp)
+    lens = []
+    for L, facts in classes:
+        if not isinstance(L, Aff):
+            ctx.ob('C10.R7', '%s|len-resolved' % f.name, False, 'copy length is not a linear form of (data_size, size_, capacity_)', where=f.loc(m['i']))
+            continue
+        lens.append(L)
+        a = nonneg(cap - size0 - L, CH, facts)
+        b = nonneg(dsz - L, CH, facts)
+        c = nonneg(L, CH, facts)
+        mx = (L == dsz) or (L == cap - size0)
+        ctx.ob('C10.R7', '%s|len=%r' % (f.name, L), a and b and c and mx,
+               'length %r: fits the free space, does not exceed the request, is one of {request, free space}' % L if a and b and c and mx else
+               'length %r: %s' % (L, '; '.join(w for w, ok_ in (('can exceed the free space capacity_ - size_ (writes past the block)', a), ('can exceed the request (reads past the datum)', b),
+                                                                ('can be negative', c), ('is neither the request nor the free space (bytes withheld)', mx)) if not ok_)), where=f.loc(m['i']))
+    # size_ advances by the copied length, and that is what is returned
+    adv = [st for st in f.stmts if st and st['k'] == 'CompoundAssignOperator' and st.get('op') == '+=' and (f.field_of(st['ch'][0]) or '').endswith('Buffer::size_')]
+    lenpath = f.path(m['args'][2])
+    okadv = len(adv) == 1 and f.path(adv[0]['ch'][1]) == lenpath and f.cfg.dominates(mp, q.pt(f, adv[0])) and q.stable(f, lenpath, mp, q.pt(f, adv[0]), content=True) and \
+        len(q.writes(f, 'Buffer::size_')) == 1
+    ctx.ob('C10.R7', '%s|advance=copied' % f.name, okadv, 'size_ += (the copied length) once, after the copy', where=f.loc(adv[0]['i'] if adv else f.body))
+    rets = q.returns(f)
+    okret = bool(rets) and all(r.get('val') is not None and f.path(r['val']) == lenpath for r in rets)
+    ctx.ob('C10.R7', '%s|returns-copied' % f.name, okret, 'returns the copied length', where=f.loc(rets[0]['i'] if rets else f.body))
+    # caller: cursor and remainder move by what the chunk accepted
+    al = prog.fn1(IMPL + '::appendLockless')
+    calls = [st for st in al.calls() if st.get('usr') == f.usr]
+    if len(calls) != 1:
+        raise AnalysisBroken('appendLockless: expected one Buffer::append call, found %d' % len(calls))
+    c = calls[0]
+    acc = None
+    for st in al.stmts:
+        if st and st['k'] == 'DeclStmt':
+            for d in st['decls']:
+                if 'init' in d and c['i'] in set(al.walk(d['init'])):
+                    acc = d
+    a0, a1 = al.path(c['args'][0]), al.path(c['args'][1])
+    ups = [st for st in al.stmts if st and st['k'] == 'CompoundAssignOperator' and st.get('op') in ('+=', '-=')]
+    okc = acc is not None and any(st['op'] == '+=' and al.path(st['ch'][0]) == a0 and al.path(st['ch'][1]) == acc['n'] for st in ups) and \
+        any(st['op'] == '-=' and al.path(st['ch'][0]) == a1 and al.path(st['ch'][1]) == acc['n'] for st in ups)
+    ctx.ob('C10.R7', '%s|cursor-by-accepted' % al.name, okc, 'appendLockless: ptr += accepted and remain -= accepted for the value Buffer::append returned', where=al.loc(c['i']))
+
+
 def run(ctx):
     prog = extract('ALL' if ctx.tier == 'thorough' else SCOPE)
     eng, ctxs, backend = setup(prog)
@@ -333,4 +398,5 @@ def run(ctx):
     ctx.guard(r4, ctx, prog, eng)
     ctx.guard(r5, ctx, prog, eng, backend)
     ctx.guard(r6, ctx, prog, eng, ctxs)
+    ctx.guard(r7, ctx, prog, eng)
     return prog
